@@ -1619,6 +1619,91 @@ impl<Alloc: BrotliAlloc> BrotliEncoderStateStruct<Alloc> {
     }
 }
 
+/// Verification hook (only with `--cfg brotli_verif`): a thread-local log of every block the
+/// stream calls hand to the compression back ends, so that the stream state machine can be
+/// compared with its formal model.  Nothing is recorded unless a harness enables the log.
+#[cfg(brotli_verif)]
+pub mod verif_trace {
+    use std::cell::RefCell;
+    use std::vec::Vec;
+    #[derive(Clone, Debug)]
+    pub struct Rec {
+        pub fast: bool,
+        pub is_last: bool,
+        pub force_flush: bool,
+        pub result: bool,
+        pub inplace: bool,
+        pub block_size: usize,
+        pub out: Vec<u8>,
+        pub last_bytes: u16,
+        pub last_bytes_bits: u8,
+        pub input_pos: u64,
+        pub last_flush_pos: u64,
+        pub last_processed_pos: u64,
+        pub size_hint: usize,
+    }
+    thread_local! { pub static LOG: RefCell<Option<Vec<Rec>>> = RefCell::new(None); }
+    pub fn enable() {
+        LOG.with(|l| *l.borrow_mut() = Some(Vec::new()));
+    }
+    pub fn take() -> Vec<Rec> {
+        LOG.with(|l| match l.borrow_mut().as_mut() {
+            Some(v) => core::mem::take(v),
+            None => Vec::new(),
+        })
+    }
+    pub fn enabled() -> bool {
+        LOG.with(|l| l.borrow().is_some())
+    }
+    pub fn push(r: Rec) {
+        LOG.with(|l| {
+            if let Some(v) = l.borrow_mut().as_mut() {
+                v.push(r)
+            }
+        });
+    }
+}
+
+#[cfg(brotli_verif)]
+impl<Alloc: BrotliAlloc> BrotliEncoderStateStruct<Alloc> {
+    fn verif_record(
+        &mut self,
+        fast: bool,
+        is_last: bool,
+        force_flush: bool,
+        result: bool,
+        inplace: bool,
+        block_size: usize,
+        out: &[u8],
+    ) {
+        if verif_trace::enabled() {
+            verif_trace::push(verif_trace::Rec {
+                fast,
+                is_last,
+                force_flush,
+                result,
+                inplace,
+                block_size,
+                out: out.to_vec(),
+                last_bytes: self.last_bytes_,
+                last_bytes_bits: self.last_bytes_bits_,
+                input_pos: self.input_pos_,
+                last_flush_pos: self.last_flush_pos_,
+                last_processed_pos: self.last_processed_pos_,
+                size_hint: self.params.size_hint,
+            });
+        }
+    }
+    /// state of the private output cursor: (0 = none, 1 = dynamic storage, 2 = tiny buffer), offset
+    pub fn verif_next_out(&self) -> (u8, u32) {
+        match self.next_out_ {
+            NextOut::None => (0, 0),
+            NextOut::DynamicStorage(o) => (1, o),
+            NextOut::TinyBuf(o) => (2, o),
+        }
+    }
+}
+
 fn WrapPosition(position: u64) -> u32 {
     let mut result: u32 = position as u32;
     let gb: u64 = position >> 30;
@@ -2599,6 +2684,15 @@ impl<Alloc: BrotliAlloc> BrotliEncoderStateStruct<Alloc> {
                 let mut avail_out: usize = self.available_out_;
                 let result = self.encode_data(false, true, &mut avail_out, metablock_callback);
                 self.available_out_ = avail_out;
+                #[cfg(brotli_verif)]
+                {
+                    let o: std::vec::Vec<u8> = if result {
+                        self.storage_.slice()[..avail_out].to_vec()
+                    } else {
+                        std::vec::Vec::new()
+                    };
+                    self.verif_record(false, false, true, result, false, 0, &o);
+                }
                 if !result {
                     return false;
                 }
@@ -2791,6 +2885,8 @@ impl<Alloc: BrotliAlloc> BrotliEncoderStateStruct<Alloc> {
                         storage,
                     );
                 }
+                #[cfg(brotli_verif)]
+                let verif_fast_out: std::vec::Vec<u8> = storage[..(storage_ix >> 3) + 2].to_vec();
                 *next_in_offset += block_size;
                 *available_in = available_in.wrapping_sub(block_size);
                 if inplace != 0 {
@@ -2809,6 +2905,16 @@ impl<Alloc: BrotliAlloc> BrotliEncoderStateStruct<Alloc> {
                 self.last_bytes_ = storage[(storage_ix >> 3)] as u16
                     | ((storage[1 + (storage_ix >> 3)] as u16) << 8);
                 self.last_bytes_bits_ = (storage_ix & 7u32 as usize) as u8;
+                #[cfg(brotli_verif)]
+                self.verif_record(
+                    true,
+                    is_last,
+                    force_flush,
+                    true,
+                    inplace != 0,
+                    block_size,
+                    &verif_fast_out[..verif_fast_out.len() - 2],
+                );
                 if force_flush {
                     self.stream_state_ = BrotliEncoderStreamState::BROTLI_STREAM_FLUSH_REQUESTED;
                 }
@@ -2948,6 +3054,15 @@ impl<Alloc: BrotliAlloc> BrotliEncoderStateStruct<Alloc> {
                 let result =
                     self.encode_data(is_last, force_flush, &mut avail_out, metablock_callback);
                 self.available_out_ = avail_out;
+                #[cfg(brotli_verif)]
+                {
+                    let o: std::vec::Vec<u8> = if result {
+                        self.storage_.slice()[..avail_out].to_vec()
+                    } else {
+                        std::vec::Vec::new()
+                    };
+                    self.verif_record(false, is_last, force_flush, result, false, 0, &o);
+                }
                 //this function set next_out to &storage[0]
                 if !result {
                     return false;
